@@ -97,7 +97,8 @@ def generate(rng, tier):
                     b = b + b'\0.evil.org'
                 cert.append('dns:' + hx(b))
             elif kind == 'ip':
-                a = rng.choice(['192.0.2.7', '10.1.2.3', '2001:db8::1', '2001:db8::2', '2001:db9::1', '192.0.2.8'])
+                # incl. cross-family near misses: 32.1.13.184 = first four octets of 2001:db8::1, c000:207:: = 192.0.2.7 then zeros
+                a = rng.choice(['192.0.2.7', '10.1.2.3', '2001:db8::1', '2001:db8::2', '2001:db9::1', '192.0.2.8', '32.1.13.184', 'c000:207::', 'a01:203::'])
                 cert.append('ip:' + ipaddress.ip_address(a).packed.hex())
             elif kind == 'uri':
                 cert.append('uri:' + hx(rng.choice([b'https://example.org/', b'urn:x', b'https://evil/example'])))
